@@ -17,7 +17,7 @@ TOKEN = [K("tokenize.py::Token.__getitem__"), K("tokenize.py::Token.__add__"),
          K("tokenize.py::Token.rstrip"), K("tokenize.py::Token.strip"),
          K("tokenize.py::Token.location")]
 
-REPEAT = [K("tal.py::RepeatItem." + m) for m in
+REPEAT = [K("tal.py::RepeatDict.__call__")] + [K("tal.py::RepeatItem." + m) for m in
           ("index", "number", "start", "end", "odd", "even", "parity", "_letter", "Letter", "Roman")]
 
 COMMON_ASSUMPTIONS = [
@@ -298,7 +298,7 @@ PROPS = {
         "level_note": "Trusted: list_iterator.__length_hint__ axiom, str/int builtin models "
                       "(conformance-tested). " + K3_NOTE,
         "units": REPEAT + [K("k3::S-Repeat"), FRESH],
-        "not_decided": ["RepeatDict.__call__ (assumed as the contract of getname('repeat')(...) in K3)",
+        "not_decided": [
                         "roman()/lower() case mapping", "whitespace computed by visit_element"],
         "assumptions": COMMON_ASSUMPTIONS,
     },
